@@ -40,6 +40,8 @@ Definition entry (sel : Z) (toks : list Z) : list Z :=
   | 3 => match run_dec (dList (dPair dZ dZ)) toks with
          | Some l => [fold_left (fun acc ct => dra_accumulate acc (fst ct) (snd ct)) l 0]
          | None => bad_input end
+  | 4 => match run_dec (dPair dZ dZ) toks with
+         | Some (x, _) => [float_of_quantity (quantity_of_float x)] | None => bad_input end
   | 10 => match run_dec (let* e := dZ in let* r := dRes in let* rr := dRes in let* q := dRes in ret (e, r, rr, q)) toks with
           | Some (e, r, rr, q) => res_all e r rr q
           | None => bad_input end
@@ -50,6 +52,8 @@ Definition entry (sel : Z) (toks : list Z) : list Z :=
            | Some (a, b, g) => eBool (law_sat_mul a b g) | None => bad_input end
   | 103 => match run_dec (dPair (dList (dPair dZ dZ)) dZ) toks with
            | Some (l, g) => eBool (law_dra l g) | None => bad_input end
+  | 104 => match run_dec (dPair dZ dZ) toks with
+           | Some (x, g) => eBool (bool_decide (g = x)) | None => bad_input end
   | 110 => match run_dec (let* r := dRes in let* x := dRes in let* ra := dRes in let* rs := dRes in
                           let* rb := dRes in ret (r, x, ra, rs, rb)) toks with
            | Some (r, x, ra, rs, rb) => eBool (law_group r x ra rs rb) | None => bad_input end
